@@ -113,7 +113,7 @@ def built_cases(quick):
     ''' (scope, addl_protected, targets, spec name, security block CRC type) for BIBs produced by the
     independent source with AAD scopes the agent itself never emits. '''
     out = [
-        (None, b'', [1], 'S1', 0),                         # no scope parameter: default {0,-1,-2}
+        (None, cbor2.dumps({3: 50}), [1], 'S1', 0),        # no scope parameter: default {0,-1,-2}
         ({}, b'', [1], 'S1', 0),                           # nothing but the payload and the headers
         ({0: 1}, b'', [1], 'S1', 2),
         ({-1: 1}, b'', [1], 'S1', 0),
@@ -175,13 +175,14 @@ def aad_cases(rng, count):
         sec_hdr = [rng.choice([11, 12]), rng.choice([8, 40, 1000]), rng.choice([0, 1, 5])]
         addl = rng.choice([b'', b'', cbor2.dumps({1: 5}), bytes(rng.randrange(256) for _ in range(30))])
         source = rng.choice(EIDS)
-        cases.append(dict(spec=spec, scope=scope, target=target, sec_hdr=sec_hdr, addl=addl, source=source))
+        sec_btsd = rng.choice([b'', b'\x81\x01\x03', bytes(rng.randrange(256) for _ in range(40))])
+        cases.append(dict(spec=spec, scope=scope, target=target, sec_hdr=sec_hdr, addl=addl, source=source, sec_btsd=sec_btsd))
     # boundary-directed: every single key / flag combination on one bundle
     base = dict(dest='dtn://dst/svc', src='dtn://src/', report_to='dtn:none', flags=0, crc=1, payload=b'pp',
                 blocks=[dict(type=7, num=2, flags=1, crc=2, data=b'\x05')])
     for key in (0, -1, -2, 2, 1, 3):
         for flags in (0, 1, 2, 3):
-            cases.append(dict(spec=base, scope={key: flags}, target=rng.choice([1, 2]), sec_hdr=[11, 3, 0], addl=b'', source='dtn://src/'))
+            cases.append(dict(spec=base, scope={key: flags}, target=rng.choice([1, 2]), sec_hdr=[11, 3, 0], addl=b'', source='dtn://src/', sec_btsd=b'\x01\x02'))
     return cases
 
 
@@ -191,9 +192,9 @@ def suite_aad(chk, node, quick):
     impl = []
     for case in cases:
         wire = bpdrive.encode_bundle(case['spec'])
-        impl.append(node.external_aad(wire, case['sec_hdr'], case['source'], case['scope'], case['addl'], case['target']))
-        terms.append('(%s, mkCB %d %d %d 0 [], %s, %s, %s, %d)' % (
-            sd.coq_octets(wire), case['sec_hdr'][0], case['sec_hdr'][1], case['sec_hdr'][2],
+        impl.append(node.external_aad(wire, case['sec_hdr'], case['source'], case['scope'], case['addl'], case['target'], case['sec_btsd']))
+        terms.append('(%s, mkCB %d %d %d 0 %s, %s, %s, %s, %d)' % (
+            sd.coq_octets(wire), case['sec_hdr'][0], case['sec_hdr'][1], case['sec_hdr'][2], sd.coq_octets(case['sec_btsd']),
             sd.coq_cbor(bpdrive.eid_to_cbor(case['source'])), sd.coq_scope(case['scope']), sd.coq_octets(case['addl']),
             case['target']))
     func = '(fun c => match c with (w, sec, src, sc, ad, t) => direct_aad w sec src sc ad t end)'
@@ -356,6 +357,11 @@ def oracle(suite, ent, case, cls, out, replay):
                     # verification fails when called directly, the receive path neither delivered nor deleted:
                     # dropped earlier (CRC gate of a non-canonical encoding, own source, ...): not a C03 matter
                     suite.count('must_fail_dropped_before_verification', case['kind'])
+    elif klass == 'asb_malformed':
+        if delivered and bib == [] and direct.get('error') is None:
+            suite.fail(SIG_IGNORED, 'BIB altered (%s: %s) -> the block is not recognised as a security block, bundle delivered without verification' % (case['label'], detail), replay)
+        elif delivered:
+            suite.count('lenient_decode_verified', case['kind'])
     elif klass == 'must_pass':
         if not (delivered and pay_ok and bib and all(val is None for val in bib)):
             chk.fail(signature='C03 / alteration outside the declared scope makes verification fail or changes the delivered data',
@@ -433,6 +439,9 @@ def suite_alterations(suite, wires, quick):
             if verdict == 0 and cls[0] == 'must_pass':
                 disagree.append(dict(wire=ent['id'], label=case['label'], verdict=verdict, cls=cls, note='model says altered, property text says nothing covered changed',
                                      alt_hex=case['alt'].hex(), wire_hex=ent['wire'].hex()))
+    if disagree:
+        with open(os.path.join(os.path.dirname(CORPUS), '..', 'build', 'C03_verdict_disagreements.json'), 'w') as out:
+            json.dump(disagree, out, indent=1)
     chk.obligation('correspondence:verdict', not disagree, json.dumps(disagree[:2])[:900])
     suite.stats['verdict_cases'] = len(verdict_terms)
     suite.stats['sweep_procs'] = nproc
@@ -582,10 +591,13 @@ def main():
     trace('coq_props done')
     suite_corpus(suite)
     node = sd.SecNode(sd.DST_ID)
-    suite_aad(chk, node, quick)
+    only = os.environ.get('VERIF_ONLY')      # debugging aid: run one suite
+    if only in (None, 'aad'):
+        suite_aad(chk, node, quick)
     trace('aad done')
     wires = make_wires(chk, quick)
-    suite_structure(chk, [ent for ent in wires if ent['source'] == 'agent'], node)
+    if only in (None, 'structure'):
+        suite_structure(chk, [ent for ent in wires if ent['source'] == 'agent'], node)
     trace('structure done')
     suite_baseline(suite, wires)
     suite_mac_kw(suite)
